@@ -1,5 +1,6 @@
 """Stubs: harness intrinsics and contracts for everything outside the repository (math/big, bytes, binary, hashing, fmt, json,
 gnark, net/http, zerolog, ...). Every stub used by a check is listed in its evidence file."""
+import os
 import z3
 from gosym import *
 
@@ -147,7 +148,7 @@ def i_assert(ex, st, args, ctx):
     strs = [v for v in st.draws.values() if z3.is_string(v)]
     if strs:
         # first try to find the counterexample among a dictionary of typical numbers / non-numbers, with Go's true answers for them
-        D = ['', '0x', 'zz', ' 1', '1.5', '0x1f', '12', '0', '0x0', '-1', '0b1', '1_0', '0x1G']
+        D = ['', '0x', 'zz', ' 1', '1.5', '0x1f', '12', '0', '0x0', '-1', '0b1', '1_0', '0x1G', '0x12zz', '7 zz', '0x2 ', ' 0x2', '1e3', '+5', '0X1F', '00', '0o7', '0b102', '0x_1', '1\n']
         isn = uf(ex, 'isNumber_base0', z3.StringSort(), z3.BoolSort())
         nv = uf(ex, 'numval_base0', z3.StringSort(), z3.BitVecSort(BIG))
         dfacts = []
@@ -159,7 +160,23 @@ def i_assert(ex, st, args, ctx):
         dfacts += [z3.Or(*[v == z3.StringVal(w) for w in D]) for v in strs]
         rd, sold = ex.check(st.pc, [z3.Not(c)] + dfacts)
         if rd == 'sat':
-            raise PathEnd('assert', {'msg': msg, 'pos': ctx['pos'], 'model': sold.model()})
+            # further dictionary counterexamples (other strings in the positions the first one used): which of them the real library
+            # functions agree with is decided by the native replay
+            first = sold.model()
+            alts = []
+            for w in D:
+                if go_setstring0(w) is not None or len(alts) >= 24:
+                    continue
+                # one non-number in one string position, plain numbers everywhere else
+                for pi in range(len(strs)):
+                    ra, sola = ex.check(st.pc, [z3.Not(c)] + dfacts + [strs[pi] == z3.StringVal(w)] + [v == z3.StringVal('12') for j, v in enumerate(strs) if j != pi])
+                    if ra == 'sat':
+                        alts.append(sola.model())
+                        break
+                    if os.environ.get('GOSYM_DEBUG'):
+                        rb, _ = ex.check(st.pc, [z3.Not(c)] + dfacts + [strs[pi] == z3.StringVal(w)])
+                        print('alt', repr(w), pi, strs[pi], ra, rb, flush=True)
+            raise PathEnd('assert', {'msg': msg, 'pos': ctx['pos'], 'model': first, 'alt_models': alts})
     for _ in range(12):
         m = sol.model()
         new = []
@@ -2459,3 +2476,34 @@ def stream_Read(ex, st, args, ctx):
 
 
 BASE.update({'opaque:stream.Read': stream_Read})
+
+
+def fmt_Sscan(ex, st, args, ctx):
+    used('fmt.Sscan(s, *big.Int): succeeds on an uninterpreted class of strings (not tied to SetString\'s: it skips leading space and stops at the first character that does not belong to the number)')
+    s_ = args[0]
+    tgt = ex.cells(st, args[1])
+    if len(tgt) != 1 or not isinstance(tgt[0], Iface):
+        raise Unsupported('fmt.Sscan with %d targets' % len(tgt))
+    p_ = tgt[0].v
+    if not isinstance(ex.load(st, p_), Big):
+        raise Unsupported('fmt.Sscan into a non-big.Int target')
+    if s_.num is not None:
+        ex.store(st, p_, Big(s_.num[2]))
+        return (bvval(1, 64), NIL)
+    zs = ex.zstr(s_)
+    ok = uf(ex, 'sscanOK', z3.StringSort(), z3.BoolSort())(zs)
+    val = uf(ex, 'sscanVal', z3.StringSort(), z3.BitVecSort(BIG))(zs)
+    isn = uf(ex, 'isNumber_base0', z3.StringSort(), z3.BoolSort())
+    nv = uf(ex, 'numval_base0', z3.StringSort(), z3.BitVecSort(BIG))
+
+    def good(s2):
+        s2.pc.append(z3.Implies(isn(zs), val == nv(zs)))
+        ex.store(s2, p_, Big(val))
+        return (bvval(1, 64), NIL)
+    def bad(s2):
+        s2.pc.append(z3.Not(isn(zs)))         # the scanner accepts at least every number SetString accepts (same number syntax, prefix of the text)
+        return (bvval(0, 64), Iface(-1, Opaque('error', msg=S('scan error'), origin=ctx['pos'])))
+    return Forks([(ok, good, None), (z3.Not(ok), bad, None)])
+
+
+BASE.update({'fmt.Sscan': fmt_Sscan})
